@@ -19,4 +19,5 @@ func registerStreams(m map[string]Stream) {
 	m["c07"] = c07Stream{}
 	m["c13"] = c13Stream{}
 	m["c18"] = c18Stream{}
+	m["tdrace"] = tdRaceStream{}
 }
